@@ -6,9 +6,10 @@ rows = []
 for resf in sorted(glob.glob('/verif/work/seedres/*.json')):
     r = json.load(open(resf))
     sid = r['id']                      # e.g. C01_A or r2C01_A
-    m = re.match(r'(r[23])?(C\d+)_([AB])', sid)
-    rnd, prop, x = m.group(1) or '', m.group(2), m.group(3)
-    src = {'': '/tmp/seedout', 'r2': '/tmp/seedout2', 'r3': '/tmp/seedout3'}[rnd] + '/%s/%s' % (prop, x)
+    m = re.match(r'(r[234])?(\w+?)_([AB])$', sid)
+    rnd, key, x = m.group(1) or '', m.group(2), m.group(3)
+    prop = r.get('property', key)
+    src = {'': '/tmp/seedout', 'r2': '/tmp/seedout2', 'r3': '/tmp/seedout3', 'r4': '/tmp/seedout4'}[rnd] + '/%s/%s' % (key, x)
     ok = r.get('applies') and '211 passed' in r.get('baseline_with_change', '') and r.get('demo_with_change', {}).get('exit') not in (0, None) and r.get('demo_without_change', {}).get('exit') == 0
     caught = {c: v['exit'] == 1 and v['violation_lines'] > 0 for c, v in r.get('checks', {}).items()}
     dst = '/verif/seeded/%s' % sid
